@@ -80,7 +80,8 @@ theorem inv_of_same {c : Cfg} {fl : Flavour} {s s' : St C} (hh : s'.heap = s.hea
    fun k h o => by rw [hd, hh]; exact hi.pathKey k h o, fun h o => by rw [hd, hh]; exact hi.filed h o,
    fun h o => by rw [hd, hh]; exact hi.oidFiled h o, fun ho h o => by rw [hh]; exact hi.pathOid ho h o,
    fun ho h o => by rw [hh]; exact hi.idHead ho h o, fun ho k h => by rw [hd, hn]; exact hi.idKeys ho k h,
-   fun ho k h => by rw [hd]; exact hi.pathKeysHead ho k h, fun ho k h o => by rw [hd, hh]; exact hi.idKeyOid ho k h o⟩
+   fun ho k h => by rw [hd]; exact hi.pathKeysHead ho k h, fun ho k h o => by rw [hd, hh]; exact hi.idKeyOid ho k h o,
+   fun ho h o => by rw [hh, hn]; exact hi.idAll ho h o, fun ho h h' o o' => by rw [hh]; exact hi.oidUnique ho h h' o o'⟩
 
 theorem pv_of_same {s s' : St C} (hh : s'.heap = s.heap) (hd : s'.dict = s.dict) (k : Str) : pv s' k = pv s k := by
   unfold pv getObj; rw [hh, hd]
@@ -262,7 +263,7 @@ theorem sim_alloc {c : Cfg} (hc : COk2 c) {fl : Flavour} {s : St C} {t : Tree.T 
       rw [this] at hg
       simp at hg
       exact ⟨by omega, hg.symm⟩
-  refine ⟨⟨?_, ?_, ?_, ?_, ?_, ?_, ?_, ?_, ?_, ?_, ?_⟩, ⟨?_, ?_, ?_⟩, hopath, hlive, hkind, hcont, hoid1⟩
+  refine ⟨⟨?_, ?_, ?_, ?_, ?_, ?_, ?_, ?_, ?_, ?_, ?_, ?_, ?_⟩, ⟨?_, ?_, ?_⟩, hopath, hlive, hkind, hcont, hoid1⟩
   · exact nodup_store (hd1 ▸ hi.nodup) _ _
   · intro k h' hg
     rw [hheap, List.length_append]
@@ -361,6 +362,28 @@ theorem sim_alloc {c : Cfg} (hc : COk2 c) {fl : Flavour} {s : St C} {t : Tree.T 
       have hlt := hi.valsLt k h' e
       rw [hget_old h' hlt] at hg2
       exact hi.idKeyOid ho k h' ob hk e hg2
+  · intro ho h' o' hg
+    rw [hheap] at hg
+    rw [hn1]
+    rcases hsplit h' o' hg with ⟨_, h1⟩ | ⟨_, e2⟩
+    · obtain ⟨n, hn, hkn⟩ := hi.idAll ho h' o' h1
+      exact ⟨n, by omega, hkn⟩
+    · exact ⟨s.nextId, by omega, by rw [e2, hoid2 ho]⟩
+  · intro ho h' h'' o' o'' hg hg' he
+    rw [hheap] at hg hg'
+    rcases hsplit h' o' hg with ⟨_, h1⟩ | ⟨e1, e2⟩
+    · rcases hsplit h'' o'' hg' with ⟨_, h1'⟩ | ⟨e1', e2'⟩
+      · exact hi.oidUnique ho h' h'' o' o'' h1 h1' he
+      · obtain ⟨n, hn, hkn⟩ := hi.idAll ho h' o' h1
+        rw [he, e2', hoid2 ho] at hkn
+        have := idStr_injective hkn
+        omega
+    · rcases hsplit h'' o'' hg' with ⟨_, h1'⟩ | ⟨e1', e2'⟩
+      · obtain ⟨n, hn, hkn⟩ := hi.idAll ho h'' o'' h1'
+        rw [← he, e2, hoid2 ho] at hkn
+        have := idStr_injective hkn
+        omega
+      · rw [e1, e1']
   · intro k hk
     rw [Tree.get_set]
     have hkey : dget (store c s1 s.heap.length o).dict (canon c.sep k) =
@@ -427,8 +450,15 @@ theorem sim_set {c : Cfg} (hc : COk2 c) {fl : Flavour} {s : St C} {t : Tree.T C}
       if o'.live then some (h, o') else none := by
     unfold pv getObj
     simp only [hfiledK, hget h, if_true, Option.map_some]
+  have hcell : ∀ (j : Nat) (ob : Obj C), (s.heap.set h o')[j]? = some ob →
+      ∃ ob0, s.heap[j]? = some ob0 ∧ ob0.oid = ob.oid := by
+    intro j ob hg
+    rw [hget j] at hg
+    split at hg
+    · rename_i e; subst e; cases hg; exact ⟨o, hho, hoid'.symm⟩
+    · exact ⟨ob, hg, rfl⟩
   refine ⟨⟨hi.nodup, ?_, ?_, ?_, ?_, ?_, ?_, ?_, fun ho k j hd hk => hi.idKeys ho k j hd hk,
-    fun ho k j hd => hi.pathKeysHead ho k j hd, ?_⟩, ?_, ?_⟩
+    fun ho k j hd => hi.pathKeysHead ho k j hd, ?_, ?_, ?_⟩, ?_, ?_⟩
   · intro k j hd
     simp only [List.length_set]
     exact hi.valsLt k j hd
@@ -467,6 +497,13 @@ theorem sim_set {c : Cfg} (hc : COk2 c) {fl : Flavour} {s : St C} {t : Tree.T C}
     split at hg
     · rename_i e; subst e; cases hg; rw [hoid']; exact hi.idKeyOid ho k h o hk hd hho
     · exact hi.idKeyOid ho k j ob hk hd hg
+  · intro ho j ob hg
+    obtain ⟨ob0, h0, e0⟩ := hcell j ob hg
+    rw [← e0]; exact hi.idAll ho j ob0 h0
+  · intro ho j j' ob ob' hg hg' he
+    obtain ⟨ob0, h0, e0⟩ := hcell j ob hg
+    obtain ⟨ob0', h0', e0'⟩ := hcell j' ob' hg'
+    exact hi.oidUnique ho j j' ob0 ob0' h0 h0' (by rw [e0, e0', he])
   · intro hl'
     refine ⟨?_, ?_, Tree.nodup_set hr.tnodup _ _⟩
     · intro k hk
